@@ -9,6 +9,7 @@ import (
 	"github.com/hneemann/parser2/value/export"
 	"reflect"
 	"sort"
+	"strings"
 	"sync"
 )
 
@@ -431,6 +432,43 @@ func cmdC17(seed int64, tier, outDir string) {
 		c17Case(&Tree{Kind: "list", Repr: "eager", Items: []*Tree{{Kind: "str", S: "a" + s + "b"}}}, id, sum, cw)
 		id++
 		c17Case(&Tree{Kind: "map", Repr: "listmap", Keys: []string{"k" + s}, Items: []*Tree{{Kind: "int", I: 1}}}, id, sum, cw)
+	}
+	// position sweep: a character that needs an escape (or a multi-byte rune) at EVERY offset of a long string / key, followed
+	// by a hex digit; and strings that consist of such characters only. An exporter that collects its output in chunks
+	// of a fixed size behaves differently near the chunk boundaries (seeded/C17-h: a 64-byte scratch array truncated the
+	// six-byte \u00XX escape when 59 or 60 bytes were pending); the strings of GenTree are at most 12 runes long.
+	sweepSpecials := []rune{1, 0x1f, '"', '\\', '\n', 0x7f, 0xe9, 0x2028, 0x1F600}
+	sweepCase := func(off int, specials []rune) {
+		t := &Tree{Kind: "list", Repr: "eager"}
+		for _, c := range specials {
+			t.Items = append(t.Items, &Tree{Kind: "str", S: strings.Repeat("a", off) + string(c) + "1t"})
+		}
+		if off <= 160 {
+			t.Items = append(t.Items, &Tree{Kind: "str", S: strings.Repeat("\x01", off)},
+				&Tree{Kind: "str", S: strings.Repeat("\"\x02\u00e9", off/3+1)},
+				&Tree{Kind: "map", Repr: "listmap", Keys: []string{strings.Repeat("k", off) + "\x02" + "0"}, Items: []*Tree{{Kind: "str", S: strings.Repeat("b", off) + "\x03"}}})
+		}
+		id++
+		sum.Count("family", "position sweep")
+		c17Case(t, id, sum, cw)
+	}
+	cw.Flush()
+	for off := 0; off <= 136; off++ {
+		sweepCase(off, sweepSpecials)
+		if off%28 == 27 {
+			cw.Flush() // shards of their own: long strings are slow to read for coqc
+		}
+	}
+	cw.Flush()
+	sizes, lo := []int{256, 512, 1024}, 3
+	if tier == "thorough" {
+		sizes, lo = []int{256, 512, 1024, 2048, 4096, 8192}, 12
+	}
+	for _, size := range sizes {
+		for off := size - lo; off <= size+1; off++ {
+			sweepCase(off, []rune{1, '"', 0x1F600})
+		}
+		cw.Flush()
 	}
 	// wrapper stacks: every order of depth 2, deeper stacks, at the root, as list element and as map value
 	lst := &Tree{Kind: "list", Repr: "eager", Items: []*Tree{{Kind: "int", I: 1}, {Kind: "int", I: 2}}}
